@@ -70,8 +70,11 @@ func (s scenario) callback() error {
 	return nil
 }
 
-func buildMap(n int) *encoding.Uint64Map {
-	b := encoding.NewUint64MapBuilder(3, 0) // 8 buckets
+// buildMap: IDs 0..n-1 in a map of 2^bits buckets (3: every ID alone in its
+// bucket; 1 and 0: several IDs share a bucket, so the failing item may be a
+// first, inner or last ID of its bucket).
+func buildMap(n int, bits int) *encoding.Uint64Map {
+	b := encoding.NewUint64MapBuilder(bits, 0)
 	for i := 0; i < n; i++ {
 		b.Reserve(uint64(i), 0, 1)
 	}
@@ -114,10 +117,11 @@ func pbfBytes(n int) []byte {
 // body returns the function that one execution runs.
 func (s scenario) body() func() {
 	switch s.mech {
-	case "Uint64Map.EachItem":
+	case "Uint64Map.EachItem", "Uint64Map.EachItem[2 buckets]", "Uint64Map.EachItem[1 bucket]":
+		bits := map[string]int{"Uint64Map.EachItem": 3, "Uint64Map.EachItem[2 buckets]": 1, "Uint64Map.EachItem[1 bucket]": 0}[s.mech]
 		return func() {
 			obs = obsT{}
-			m := buildMap(s.items)
+			m := buildMap(s.items, bits)
 			obs.ret = m.EachItem(func(id uint64, tagged []encoding.Tagged, g int) error { return s.callback() }, s.goroutines)
 			obs.returned = true
 		}
@@ -222,7 +226,7 @@ func (s scenario) expectedCalls() int { return s.items }
 
 func scenarios(tier string) []scenario {
 	var out []scenario
-	mechs := []string{"Uint64Map.EachItem", "MemoryFeatureSource.Read", "BasicMutableWorld.EachFeature", "MutableOverlayWorld.EachFeature", "EachModifiedTag", "ReadPBFWithOptions"}
+	mechs := []string{"Uint64Map.EachItem", "Uint64Map.EachItem[2 buckets]", "Uint64Map.EachItem[1 bucket]", "MemoryFeatureSource.Read", "BasicMutableWorld.EachFeature", "MutableOverlayWorld.EachFeature", "EachModifiedTag", "ReadPBFWithOptions"}
 	maxItems, maxG := 3, 2
 	if tier == "thorough" {
 		maxItems, maxG = 4, 3
